@@ -2,6 +2,7 @@ package rules
 
 import (
 	"fmt"
+	"go/token"
 	"go/types"
 	"sort"
 	"strings"
@@ -313,14 +314,15 @@ func isExportedFunc(g *ssa.Function) bool {
 // the stream-handling code gives to a function outside the module (a codec, bufio, base64, io.ReadFull ...) is the
 // caller's own stream, one of the library's wrappers around it (CIDReader, CIDWriter, a type of the module), or the
 // result of a constructor that passes every byte through (bufio, base64, bytes, hash). A limiting or sampling
-// wrapper from the standard library (io.LimitReader, io.LimitedReader, io.SectionReader, io.MultiReader,
-// io.TeeReader ...) makes the streaming variant see another stream than the buffered one.
+// wrapper from the standard library (io.LimitReader, io.LimitedReader, io.SectionReader, io.MultiReader ...) makes the streaming variant see another stream than the buffered one.
 func wholeStream(x *Ctx, S map[*ssa.Function]bool) {
 	passThrough := map[string]bool{
 		"bufio.NewReader": true, "bufio.NewReaderSize": true, "bufio.NewWriter": true, "bufio.NewWriterSize": true,
 		"encoding/base64.NewDecoder": true, "encoding/base64.NewEncoder": true,
 		"bytes.NewReader": true, "bytes.NewBuffer": true, "bytes.NewBufferString": true, "strings.NewReader": true,
 		"crypto/sha256.New": true, "hash.Hash": true,
+		// every byte read / written goes through unchanged (a copy is fed to the second argument)
+		"io.TeeReader": true, "io.MultiWriter": true, "io.NopCloser": true,
 	}
 	var origin func(v ssa.Value, seen map[ssa.Value]bool) string
 	origin = func(v ssa.Value, seen map[ssa.Value]bool) string {
@@ -530,4 +532,185 @@ func cloneValues(x *Ctx) {
 		}
 		x.C.Obl("C20.R4", "clone-values:"+name, x.pos(f), fmt.Sprintf("each of the %d values put into the clone's map is the original's value or a node over storage of its own", n), bad == "" && n > 0, dedupLines(bad))
 	}
+}
+
+// bytesPassedOn (C08.R2): between the bytes a byte-slice decoder is given and the codec nothing rewrites them. In
+// packages token, delegation, invocation and envelope every []byte argument handed to ipld.Decode or to another
+// decoder of the module is the function's own parameter (FromSealed hashes its parameter: what is decoded must be
+// those very bytes; a trimming, transcoding or sniffing step in between makes the CID name other bytes than the
+// ones the token was read from).
+func bytesPassedOn(x *Ctx) {
+	isBytes := func(t types.Type) bool {
+		s, ok := t.Underlying().(*types.Slice)
+		if !ok {
+			return false
+		}
+		b, ok := s.Elem().Underlying().(*types.Basic)
+		return ok && b.Kind() == types.Uint8
+	}
+	var own func(v ssa.Value, seen map[ssa.Value]bool) bool
+	own = func(v ssa.Value, seen map[ssa.Value]bool) bool {
+		if seen[v] {
+			return true
+		}
+		seen[v] = true
+		switch t := v.(type) {
+		case *ssa.Parameter:
+			return true
+		case *ssa.ChangeType:
+			return own(t.X, seen)
+		case *ssa.Phi:
+			for _, e := range t.Edges {
+				if !own(e, seen) {
+					return false
+				}
+			}
+			return true
+		case *ssa.UnOp:
+			if a, ok := t.X.(*ssa.Alloc); ok {
+				n := 0
+				for _, r := range *a.Referrers() {
+					if st, ok := r.(*ssa.Store); ok && st.Addr == ssa.Value(a) {
+						n++
+						if !own(st.Val, seen) {
+							return false
+						}
+					}
+				}
+				return n > 0
+			}
+		}
+		return false
+	}
+	pk := map[string]bool{load.Module + "/token": true, load.Module + "/token/delegation": true, load.Module + "/token/invocation": true, load.Module + "/token/internal/envelope": true}
+	n, bad := 0, ""
+	for _, f := range x.P.ModuleFuncs() {
+		if !pk[x.P.PkgPathOf(f)] || len(f.Blocks) == 0 {
+			continue
+		}
+		hasBytesParam := false
+		for _, p := range f.Params {
+			if isBytes(p.Type()) {
+				hasBytesParam = true
+			}
+		}
+		if !hasBytesParam {
+			continue
+		}
+		for _, b := range f.Blocks {
+			for _, in := range b.Instrs {
+				c, ok := in.(*ssa.Call)
+				if !ok {
+					continue
+				}
+				h := c.Call.StaticCallee()
+				if h == nil {
+					continue
+				}
+				name := paths.FuncName(h)
+				decoder := name == "github.com/ipld/go-ipld-prime.Decode" || name == "github.com/ipld/go-ipld-prime.Unmarshal"
+				if x.P.InModule(h) && pk[x.P.PkgPathOf(h)] {
+					switch h.Name() {
+					case "Decode", "FromDagCbor", "FromDagJson", "FromSealed", "CIDFromBytes":
+						decoder = true
+					}
+				}
+				if !decoder {
+					continue
+				}
+				for _, a := range c.Call.Args {
+					if !isBytes(a.Type()) {
+						continue
+					}
+					n++
+					if !own(a, map[ssa.Value]bool{}) {
+						bad += fmt.Sprintf("%s: %s hands %s bytes that are not its own parameter (%s)\n", x.P.Pos(in.Pos()), load.ShortName(f), name, a.String())
+					}
+				}
+			}
+		}
+	}
+	x.C.Obl("C08.R2", "bytes-passed-on", "-", fmt.Sprintf("each of the %d byte slices handed to a decoder or to the hash in the token packages is the caller's own parameter", n), bad == "" && n >= 8, dedupLines(bad))
+}
+
+// retainedConcat (C09.M2): a recursive function does not keep what it builds from its own result. A string or slice
+// made by concatenating / appending to the result of the recursive call and stored into a field or a package-level
+// variable is kept alive at every level: a path of depth n holds 1 + 2 + ... + n pieces, quadratic in the nesting
+// depth of the input.
+func retainedConcat(x *Ctx, fns []*ssa.Function) {
+	n, bad := 0, ""
+	for _, f := range fns {
+		var selfCalls []*ssa.Call
+		for _, b := range f.Blocks {
+			for _, in := range b.Instrs {
+				if c, ok := in.(*ssa.Call); ok && c.Call.StaticCallee() == f {
+					selfCalls = append(selfCalls, c)
+				}
+			}
+		}
+		if len(selfCalls) == 0 {
+			continue
+		}
+		n++
+		var fromSelf func(v ssa.Value, seen map[ssa.Value]bool) bool
+		fromSelf = func(v ssa.Value, seen map[ssa.Value]bool) bool {
+			if seen[v] {
+				return false
+			}
+			seen[v] = true
+			switch t := v.(type) {
+			case *ssa.Call:
+				if t.Call.StaticCallee() == f {
+					return true
+				}
+				if bi, ok := t.Call.Value.(*ssa.Builtin); ok && bi.Name() == "append" {
+					for _, a := range t.Call.Args {
+						if fromSelf(a, seen) {
+							return true
+						}
+					}
+				}
+			case *ssa.Extract:
+				return fromSelf(t.Tuple, seen)
+			case *ssa.BinOp:
+				return fromSelf(t.X, seen) || fromSelf(t.Y, seen)
+			case *ssa.Phi:
+				for _, e := range t.Edges {
+					if fromSelf(e, seen) {
+						return true
+					}
+				}
+			case *ssa.Slice:
+				return fromSelf(t.X, seen)
+			case *ssa.ChangeType:
+				return fromSelf(t.X, seen)
+			}
+			return false
+		}
+		for _, b := range f.Blocks {
+			for _, in := range b.Instrs {
+				st, ok := in.(*ssa.Store)
+				if !ok {
+					continue
+				}
+				switch st.Addr.(type) {
+				case *ssa.FieldAddr, *ssa.Global, *ssa.IndexAddr:
+				default:
+					continue
+				}
+				bo, isConcat := st.Val.(*ssa.BinOp)
+				_, isCall := st.Val.(*ssa.Call)
+				if !(isConcat && bo.Op == token.ADD) && !isCall {
+					continue
+				}
+				if _, direct := st.Val.(*ssa.Call); direct && st.Val.(*ssa.Call).Call.StaticCallee() == f {
+					continue // the result itself, not something built on top of it
+				}
+				if fromSelf(st.Val, map[ssa.Value]bool{}) {
+					bad += fmt.Sprintf("%s: %s keeps a value built on top of its own recursive result: every level of the recursion retains its own copy\n", x.P.Pos(in.Pos()), load.ShortName(f))
+				}
+			}
+		}
+	}
+	x.C.Obl("C09.M2", "no-retained-concatenation", "-", fmt.Sprintf("none of the %d directly recursive functions stores a string / slice built on top of its own result", n), bad == "", dedupLines(bad))
 }
